@@ -72,7 +72,7 @@ class P:
         stmts = []
         tail = None
         while not s.accept('}'):
-            if s.peek()[1] == 'let':
+            if s.peek()[1] == 'let' or (s.peek()[1] == 'const' and s.peek(1)[0] == 'id'):
                 s.next()
                 s.accept('mut')
                 pat = s.pattern()
@@ -417,8 +417,10 @@ SCALAR = {'min': ('smin', 1), 'max': ('smax', 1), 'recip': ('srecip', 0), 'sqrt'
           'mul_add': ('smulAdd', 2), 'sin': ('Scalar.sin', 0), 'cos': ('Scalar.cos', 0),
           'tan': ('Scalar.tan', 0), 'acos': ('Scalar.acos', 0), 'powf': ('Scalar.powf', 1),
           'ln': ('Scalar.ln', 0)}
-IDENT_METHODS = ('into', 'clone', 'to_owned')
-LEAN_KEYWORDS = {'end', 'at', 'from', 'to', 'fun', 'then', 'do', 'in', 'open', 'by', 'have', 'show', 'with'}
+IDENT_METHODS = ('into', 'clone', 'to_owned', 'as_coeffs')
+# core::f64::consts (the names on the right are defined in lean/Kurbo/Shapes.lean)
+FLOAT_CONSTS = {'PI': '(Scalar.pi : K)', 'FRAC_PI_2': '(fracPi2 : K)', 'FRAC_PI_4': '(fracPi4 : K)', 'TAU': '(twoPi : K)'}
+LEAN_KEYWORDS = {'end', 'at', 'from', 'to', 'fun', 'then', 'do', 'in', 'open', 'by', 'have', 'show', 'with', 'local'}
 
 
 def lid(name):
@@ -436,6 +438,17 @@ class Emit:
         q = lit_to_fraction(v)
         if q.denominator == 1:
             return f"({q.numerator} : K)"
+        if getattr(s.ctx, 'raw_decimals', False):
+            # second tier: digits over a power of ten, as written in the source (the hand-written models spell decimals this way)
+            vv = v.replace('_f64', '').replace('f64', '').replace('_', '')
+            m = re.fullmatch(r'(\d*)\.?(\d*)(?:[eE]([+-]?\d+))?', vv)
+            ip, fp, ex = m.group(1) or '0', m.group(2) or '', int(m.group(3) or 0)
+            num, den = int(ip + fp), 10 ** len(fp)
+            if ex >= 0:
+                num *= 10 ** ex
+            else:
+                den *= 10 ** (-ex)
+            return f"(Scalar.ofRat ({num}/{den} : Rat) : K)"
         return f"(Scalar.ofRat ({q.numerator}/{q.denominator} : Rat) : K)"
 
     def mname(s, m):
@@ -457,8 +470,10 @@ class Emit:
             if len(p) == 1:
                 if p[0] in s.ctx.const_names:
                     return p[0] + s.ctx.suffix
-                if p[0] == 'PI':
-                    raise Untranslatable("PI")
+                if p[0] in FLOAT_CONSTS:
+                    return FLOAT_CONSTS[p[0]]
+                if p[0] == 'None':
+                    return 'none'
                 return lid(p[0])
             if p[0] == 'f64':
                 raise Untranslatable("f64:: constant")
@@ -542,7 +557,11 @@ class Emit:
                 a = [s.e(y) for y in args[0][1]]
                 return f"(Affine.mk {' '.join(a)})"
             a = [s.e(y) for y in args]
-            if len(p) == 1 and p[0] in s.ctx.free_fn_names:
+            if len(p) == 1 and p[0] == 'Some' and len(a) == 1:
+                return f"(some {a[0]})"
+            if len(p) == 1 and p[0] in s.ctx.free_fn_rust:
+                f = s.ctx.free_fn_rust[p[0]] + s.ctx.suffix
+            elif len(p) == 1 and p[0] in s.ctx.free_fn_names:
                 f = p[0] + s.ctx.suffix
             elif f in s.ctx.item_names:
                 f = f + s.ctx.suffix
@@ -700,6 +719,8 @@ class Translator:
         self.method_names = {it['lean'].split('.')[-1] for it in items if it['kind'] == 'fn' and '.' in it['lean']}
         self.free_fn_names = {it['lean'] for it in items if it['kind'] == 'fn' and '.' not in it['lean']}
         self.const_names = {it['lean'] for it in items if it['kind'] == 'const' and '.' not in it['lean']}
+        # free functions whose Lean name differs from the Rust name (rotate_pt -> rotatePt)
+        self.free_fn_rust = {it['fn']: it['lean'] for it in items if it['kind'] == 'fn' and not it['impl'] and it['fn'] != it['lean']}
         self.cache = {}
 
     def src(self, f):
@@ -754,12 +775,22 @@ def main():
     ap.add_argument('out')
     ap.add_argument('--suffix', default='')
     ap.add_argument('--status', default=None)
+    ap.add_argument('--tier', default='1')
     a = ap.parse_args()
     sys.path.insert(0, os.path.dirname(os.path.abspath(__file__)))
-    from kernel_items import ITEMS
+    if a.tier == '2':
+        from kernel_items2 import ITEMS
+    else:
+        from kernel_items import ITEMS
     tr = Translator(a.srcdir, ITEMS, a.suffix)
+    tr.raw_decimals = (a.tier == '2')
     out, status = tr.run()
-    if a.suffix:
+    if a.tier == '2':
+        hdr = ("import Kurbo.Shapes\nimport Kurbo.Flatten\nimport Kurbo.Arclen\nimport Kurbo.Quads\n"
+               "/-! GENERATED by tools/rs2lean.py --tier 2 from the current working tree of /repo on every run. DO NOT EDIT.\n"
+               "    Re-translation of the straight-line functions whose pinned model is HAND-WRITTEN (Shapes/Flatten/Arclen/Quads.lean). -/\n"
+               "set_option linter.unusedVariables false\nnamespace Kurbo\nopen Ops\nvariable {K : Type} [Scalar K]\n\n")
+    elif a.suffix:
         hdr = ("import Kurbo.Kernel\n/-! GENERATED by tools/rs2lean.py from the current working tree of /repo on every run. DO NOT EDIT. -/\n"
                "set_option linter.unusedVariables false\nnamespace Kurbo\nopen Ops\nvariable {K : Type} [Scalar K]\n\n")
     else:
